@@ -417,6 +417,18 @@ fn assemble_violation(rng: &mut Rng, fam: Family, rule: u64) -> Option<(&'static
                 Some(("witness-short", p, w))
             }
         }
+        12 => {
+            // two witness nodes of one type holding one value, written as two nodes under a parent that is not itself
+            // duplicated: pair(w, w') ; eq_N ; unit. At redemption time they have one identity root and must be shared.
+            let jets = crate::gen::jets_of(fam);
+            let n = *rng.pick(&[8usize, 16, 32, 64]);
+            let eq = jets.iter().find(|j| j.jet.name() == format!("eq_{}", n))?;
+            let list = vec![op(Op::Witness(None)), op(Op::Witness(None)), op(Op::Pair(0, 1)), op(Op::Jet(eq.jet)), op(Op::Comp(2, 3)), op(Op::Unit), op(Op::Comp(4, 5))];
+            let v = rng.bytes(n / 8);
+            let mut w = v.clone();
+            w.extend(&v);
+            Some(("duplicate-witness", pack(&list), w))
+        }
         _ => None,
     }
 }
@@ -552,7 +564,7 @@ pub fn run(ctx: &Ctx) {
         Outcome::Held
     });
     ctx.run_sub("hand-assembled-violations", Plan::sample(t.pick(6_000, 300_000), 0.2), |rng, case| {
-        let rule = case.idx % 12;
+        let rule = case.idx % 13;
         let fam = if rng.bool() { Family::Core } else { Family::Elements };
         let (name, p, w) = match assemble_violation(rng, fam, rule) {
             Some(x) => x,
@@ -565,6 +577,8 @@ pub fn run(ctx: &Ctx) {
             "witness-extra-byte" | "witness-short" => vec![(Dec::Redeem, fam)],
             // sharing is only checked by the program decoders
             "unshared-duplicate" => vec![(Dec::Redeem, fam), (Dec::Commit, fam)],
+            // witness nodes have an identity root only at redemption time
+            "duplicate-witness" => vec![(Dec::Redeem, fam)],
             _ => all_decoders(fam),
         };
         for (dec, f) in decs {
